@@ -269,6 +269,12 @@ func anyCmp(x, y any) int {
 			return a.P - b.P
 		}
 		return a.ID - b.ID
+	case HX:
+		b := y.(HX)
+		if a.P != b.P {
+			return a.P - b.P
+		}
+		return int(a.ID - b.ID)
 	}
 	panic(fmt.Sprintf("anyCmp: %T", x))
 }
